@@ -232,6 +232,20 @@ pub fn contract_roundtrip_table(t: &Huffman, input: &[u8], cap: usize, bug: bool
     assert!(out[cap..].iter().all(|&b| b == 0x55));
 }
 
+/// contract (one concrete evaluation, no inputs): the built-in table is exactly what from_frequencies builds from the
+/// frequency table shipped in huffman/data/frequencies -- the table the original implementation builds at start-up, so
+/// this is the necessary condition for "reference-compatible output is byte-identical" that lives in this crate.
+#[cfg(not(kani))]
+pub fn contract_builtin_table_from_frequencies() {
+    let text = include_str!(concat!(env!("CARGO_MANIFEST_DIR"), "/data/frequencies"));
+    let freqs: Vec<u32> = text.split_whitespace().map(|l| l.parse::<u32>().unwrap()).collect();
+    assert!(freqs.len() == 256);
+    let built = Huffman::from_frequencies(&freqs);
+    for i in 0..NUM_NODES {
+        assert!(built.nodes[i] == instances::TEEWORLDS.nodes[i], "built-in table differs from from_frequencies(data/frequencies)");
+    }
+}
+
 pub mod proofs {
     use super::draw;
     use super::draw::harness;
@@ -267,6 +281,11 @@ pub mod proofs {
         contract_compressed_len(&mut table, ilen, lens);
     });
     // ---- sampled (native PRNG driver only; never counted as proved) ----
+    #[cfg(not(kani))]
+    harness!(sampled_huff_builtin_table_from_frequencies_heavy, unwind = 1, {
+        draw::reached();
+        contract_builtin_table_from_frequencies();
+    });
     #[cfg(not(kani))]
     harness!(sampled_huff_roundtrip_builtin, unwind = 1, {
         let input = draw::bytes::<12>();
